@@ -1150,6 +1150,7 @@ def probes_c11(tier, seed, ci, nc):
     yield ('rt:none_annotation',)
     yield ('rt:wrapped_annotations',)
     yield ('rt:wraps_crossmodule',)
+    yield ('rt:annotate_bound',)
 
 
 STREAMS['probes_c11'] = probes_c11
